@@ -1,5 +1,6 @@
 """C13 - absolute sizes are relativized exactly or refused; fit-to-screen stays safe."""
 import random
+import itertools
 import re
 from decimal import Decimal, ROUND_HALF_EVEN
 from fractions import Fraction
@@ -382,6 +383,24 @@ def bounded_one_dimension(ctx, b):
                                         "writer_configured_by_position": positional})
 
 
+def bounded_shared_layout(ctx, b):
+    """one Layout object carried by three captions (percentage origin / extent, paddings in px or %): every cue is written
+    with the values of the first - converting a length for one cue does not touch the layout the others share"""
+    for unit, fit in itertools.product([UnitEnum.PIXEL, UnitEnum.PERCENT], [False, True]):
+        pad = Padding(*[Size(v, unit) for v in ((18, 9, 32, 16) if unit is UnitEnum.PIXEL else (5, 2.5, 5, 2.5))])
+        L = Layout(origin=Point(Size(10, UnitEnum.PERCENT), Size(20, UnitEnum.PERCENT)), extent=Stretch(Size(50, UnitEnum.PERCENT), Size(30, UnitEnum.PERCENT)), padding=pad)
+        for level in ("caption", "node"):
+            caps = [Caption(j * 10 ** 6, (j + 1) * 10 ** 6, [CaptionNode.create_text(f"t{j}", layout_info=L if level == "node" else None)],
+                            layout_info=L if level == "caption" else None) for j in range(3)]
+            cs = CaptionSet({"en": CaptionList(caps)})
+
+            def one(cs=cs, fit=fit):
+                out = WebVTTWriter(relativize=True, video_width=640, video_height=360, fit_to_screen=fit).write(cs)
+                settings = re.findall(r"--> \S+ (.*)", out)
+                return len(settings) == 3 and len(set(settings)) == 1 and "position:15%" in settings[0], {"cue_settings": settings}
+            b.guard(("shared_layout", unit.value, fit, level), one, sample={"padding_unit": unit.value, "fit_to_screen": fit, "level": level, "cues_sharing_one_layout": 3})
+
+
 def bounded_writers(ctx, b):
     rng = random.Random(ctx.seed)
     # (127.99 of 640 is 19.998%: rounds to a whole number without being one; 0.01 of 640 rounds to 0)
@@ -527,6 +546,8 @@ def run(ctx):
       functions=[WebVTTWriter._convert_positioning], contracts=WEBVTT_PARTS)
     import props.C13_levels as LV
     LV.prove_levels(ctx)
+    ctx.bounded("shared_layout", "three captions (or their text nodes) carrying ONE Layout object with paddings in px or %, WebVTT with and "
+                "without fit-to-screen: the three cues are written with identical settings (position 15%)", lambda b: bounded_shared_layout(ctx, b))
     ctx.bounded("one_dimension", "layouts with pixel lengths on one axis and percentages (or pixels) on the other, only that axis' "
                 "video dimension supplied, at three levels x DFXP/SAMI/WebVTT writers configured by keyword and by position: "
                 "written as 10% / 5% (position 15%, size 70-80%), refused exactly when the other axis needs its dimension",
